@@ -576,7 +576,10 @@ impl RobotBody {
 
     fn check_required(&self, i: usize, j: usize, skip: &HashSet<usize>,
                       safety: &SafetyDistances) -> bool {
-        !skip.contains(&i) && !skip.contains(&j) &&
+        // A pair can only be left out if neither body has moved. Skipped joints, the base
+        // and the environment objects stay where they were; everything else may have moved.
+        let unmoved = |k: usize| skip.contains(&k) || k == J_BASE || k >= ENV_START_IDX;
+        !(unmoved(i) && unmoved(j)) &&
             safety.min_distance(i as u16, j as u16) > &NEVER_COLLIDES
     }    
 }
